@@ -8,7 +8,7 @@ From Dashu Require Import Base.Prelude Base.Words Int.RingSpec Int.RingSign Int.
   Int.DivWordModel Int.DivWordProofs Int.RingMulW Int.RingMulWProofs Int.RingOpsW Int.RingOpsWProofs
   Int.RingScratch Int.RingScratchProofs Int.RingPowW Int.RingPowWProofs Int.RingTopW Int.RingPrim Int.RingPrimProofs
   Int.WordPrims Int.WordKernelSpec Int.WordKernelRun Int.WordKernelsGenProofs Int.WordKernelSpecProofs Int.WordKernelRunProofs Int.WordKernelsGenTransfer
-  Int.RingOpsW4 Int.RingOpsW4Proofs.
+  Int.RingOpsW4 Int.RingOpsW4Proofs Int.RingPowShift.
 From Dashu Require Int.BitsKernels Int.ReprOrdModel.
 From DashuGen Require Import SignTables Params MulMemory WordKernelsGen.
 Open Scope Z_scope.
@@ -648,3 +648,29 @@ Example C01_mul_large_dword_nonvacuous :
   wf 8 [255; 1; 7] /\ mul_large_dword_w 8 [255; 1; 7] 16 = Large [240; 31; 112] /\ mul_large_dword_w 8 [255; 255; 255] 128 = Large [128; 255; 255; 127] /\
   mul_large_dword_w 8 [255; 255; 255] 65535 = Large [1; 0; 255; 254; 255].
 Proof. repeat split; try reflexivity; repeat constructor; cbn; lia. Qed.
+
+(** ==== round 4, finding F01 (fixed): the shift count exp * shift of UBig::pow / IBig::pow in usize arithmetic (U = 2^bits of usize).
+    After the fix the count is checked: either pow returns (odd * 2^shift)^exp exactly, or it panics with the documented
+    'try to allocate too much memory' - and then the true result has more than usize::MAX bits. *)
+Theorem C01_pow_shift_checked : forall U odd e shift, 0 <= e -> 0 <= shift ->
+  match pow_shifted (pow_shift U e shift) odd e with
+  | Ok v => v = (odd * 2 ^ shift) ^ e
+  | Panic r => r = AllocateTooMuch /\ U <= e * shift
+  | _ => False
+  end.
+Proof. exact pow_shift_exact. Qed.
+Print Assumptions C01_pow_shift_checked.
+
+Theorem C01_pow_shift_panic_justified : forall U odd e shift, 0 < odd -> 0 <= e -> 0 <= shift -> U <= e * shift ->
+  2 ^ U <= (odd * 2 ^ shift) ^ e.
+Proof. exact pow_shift_panic_justified. Qed.
+Print Assumptions C01_pow_shift_panic_justified.
+
+(** before the fix (64-bit usize, no overflow checks): UBig 2^32 .pow(2^59) returned 1 *)
+Theorem C01_pow_shift_before_fix_refuted :
+  exists e shift, 0 <= e < 2 ^ 64 /\ 0 <= shift < 2 ^ 64 /\
+    pow_shifted (pow_shift_before_fix (2 ^ 64) false e shift) 1 e = Ok 1 /\ 1 <> (1 * 2 ^ shift) ^ e.
+Proof. exact pow_shift_before_fix_refuted. Qed.
+Print Assumptions C01_pow_shift_before_fix_refuted.
+Example C01_pow_shift_nonvacuous : pow_shifted (pow_shift (2 ^ 64) 5 3) 3 5 = Ok ((3 * 2 ^ 3) ^ 5) /\ pow_shift (2 ^ 64) (2 ^ 59) 32 = Panic AllocateTooMuch.
+Proof. split; reflexivity. Qed.
